@@ -23,13 +23,20 @@ PROP = dict(
           "result of the sequence is compared with the civil-calendar reference. Incoming errno: every duration / time / time_seq / size / parse_size case "
           "carries the errno value (0, ERANGE, EINVAL, EILSEQ, EINTR, EDOM, ENOENT, EAGAIN, ENOMEM, EOVERFLOW; random cases: 0 a third of the time, else "
           "uniform; enumerators: rotating, parse_size texts x {0, ERANGE, EINVAL, EILSEQ, EINTR}, boundary sizes x {0, ERANGE, EINVAL, EINTR}) that is stored "
-          "immediately before each call into phosg; the same oracle applies whatever it is. Sizes: 1024^k+-3, mantissa rounding corners of every "
+          "immediately before each call into phosg; the same oracle applies whatever it is. Time zone: format_time owes the UTC date and time whatever the calling process's "
+          "TZ says, so every time / time_seq case carries a TZ setting (blob field; absent = environment as found, '(unset)', or a value that is put into the environment followed by "
+          "tzset() and taken out again after the case): 21 settings - unset, empty, UTC0, POSIX strings that need no zone database (JST-9, EST5EDT,M3.2.0,M11.1.0, NPT-5:45, <+14>-14, "
+          "<-12>12, CET/NZ/Newfoundland/Chatham-style DST rules of both hemispheres, a 1-second offset), database names (Europe/Berlin, America/New_York, :Asia/Kolkata, "
+          "Australia/Lord_Howe, Pacific/Kiritimati) and an invalid string. Random cases: a quarter as found, the rest uniform over the list; the day sweep changes the setting from one "
+          "block of 2048 days to the next; the corner-year days and the enumerated sequences rotate it; every setting x every hour of 1970-01-01, 2024-01-15, 2024-07-15, 2038-01-19 and "
+          "9999-12-31 is enumerated. A mismatch that disappears with TZ unset is reported under <clause>:depends-on-TZ. Sizes: 1024^k+-3, mantissa rounding corners of every "
           "unit, 2^k+-1, every size below 1.1 MiB (quick) / 5 MiB (thorough), random 64-bit, both include_bytes; parse_size texts for every unit letter. "
           "timeval: boundaries + random usecs < 2^63. A Hypothesis driver repeats a sample of all three families (every 37th/7th day, +-2 ms duration windows, "
           "unit boundaries, generated batches) against Python's datetime and fractions.Fraction. Non-trivial: a duration >= 60 s with explicit precision or within 1 ms of a unit boundary "
           "(distinct (usecs, precision)); a timestamp on Feb 28/29, Mar 1, Dec 31, Jan 1, at second 59 or with non-zero microseconds; a size >= 1024; "
           "a parse_size text with a unit and a fraction; a timeval with both fields non-zero; a timestamp sequence that visits at least two different seconds. Distinct = distinct case encodings (hash)."),
     assumptions=["subsecond_precision in -1..6; durations <= 2^63 us", "timestamps in years 1970..9999 (UTC)",
+                 "the TZ environment variable is changed only by the harness itself, on the single thread that runs cases (setenv + tzset before the call, restored after it; a time_seq case sets it before its thread starts and restores it after the join); the Python stage runs under the environment as found",
                  "sizes that print as '16.00 EB' (= 2^64, not representable in size_t) are checked for a faithful text only and counted as excluded from the parse_size round trip",
                  "format_size's mantissa is computed in float: tolerance 0.005 unit + 2^-23 size (+1 byte for parse_size), as DESIGN C18 states",
                  "for precision -1 the number of printed fraction digits is not prescribed; the value must be faithful at whatever precision is printed",
